@@ -129,6 +129,9 @@ func (c *Ctx) Case(fn string, args ...Val) Val {
 	if !c.Quiet && c.NCases%4 == 0 {
 		roomy = true
 		v2 := callImplNamed(fn, f, args)
+		if key, detail := afterCall(c.Prop, fn); key != "" {
+			c.reportFailure("framework.buffers", argStr, key, detail)
+		}
 		roomy = false
 		callInputs = nil
 		if v2.String() != v.String() {
